@@ -344,10 +344,10 @@ PROPERTIES["C01"] = {
           params={"quick": {"max_pipe": 3}, "thorough": {"max_pipe": 4}}, budget={"quick": 400, "thorough": 1500},
           required_covers=["c01.batch.assembled", "c01.batch.topped-up-from-pipe", "c01.batch.left-carry-over"]),
         M("c01_dealer_pending_queue_drained", "d_c01", "dealer_pending_drain",
-          {"quick": "DealerSocketOutgoingProcessor::run (the DEALER's background task: a loop around two nested tokio::select!, executed from its coroutine MIR together with the macro's poll_fn closures; the unbiased inner select's start branch is explored for every value): 1..4 messages queued with notify_one() each while no peer was attached, then a peer with room attaches (before or after the task's first poll); the task is polled until it parks with no notification pending",
-           "thorough": "1..6 messages"},
-          params={"quick": {"max_queued": 4}, "thorough": {"max_queued": 6}}, budget={"quick": 300, "thorough": 900},
-          required_covers=["c01.dealer-drain.drained", "c01.dealer-drain.several-queued"]),
+          {"quick": "DealerSocketOutgoingProcessor::run (the DEALER's background task: a loop around two nested tokio::select!, executed from its coroutine MIR together with the macro's poll_fn closures; the unbiased inner select's start branch is explored for every value): 1, 2, 3, 4, 17 or 33 messages queued with notify_one() each while no peer was attached, then a peer with room attaches (before or after the task's first poll); the task is polled until it parks with no notification pending; the random start branch is explored for the first 3 draws and fixed afterwards",
+           "thorough": "also 5, 6 and 65 messages, 4 explored draws"},
+          params={"quick": {"queued_options": [1, 2, 3, 4, 17, 33]}, "thorough": {"queued_options": [1, 2, 3, 4, 5, 6, 17, 33, 65], "explored_rng_draws": 4}}, budget={"quick": 400, "thorough": 1200},
+          required_covers=["c01.dealer-drain.drained", "c01.dealer-drain.several-queued", "c01.dealer-drain.long-backlog"]),
     ],
     "assumptions": MIRSYM_TRUST + ["VecDeque is modelled as a list",
                                    "region mode: the coroutine object of run_loop is assembled by the driver (variable places taken from the coroutine's debug-info lines in the MIR dump), execution starts at the loop's first basic block and stops at AdaptiveThrottle::begin_work_bulk; Msg::size returns the symbolic size, the pipe hands out its oldest messages, ZmtpEngine::config returns the symbolic options"],
